@@ -826,9 +826,12 @@ class LLMRails:
             await streaming_handler.push_chunk(None)
 
         # IF tracing is enabled we need to set GenerationLog attrs
+        # (if the caller did not pass options, the result is returned as without options)
+        options_only_for_tracing = False
         if self.config.tracing.enabled:
             if options is None:
                 options = GenerationOptions()
+                options_only_for_tracing = True
             if (
                 not options.log.activated_rails
                 or not options.log.llm_calls
@@ -940,7 +943,9 @@ class LLMRails:
                     input=messages, response=res, adapters=self._log_adapters
                 )
                 await tracer.export_async()
-                res = res.response[0]
+                if options_only_for_tracing:
+                    # The caller did not ask for a `GenerationResponse`
+                    res = res.response if prompt else res.response[0]
             return res
         else:
             # If a prompt is used, we only return the content of the message.
